@@ -41,6 +41,12 @@ struct Op
     int n;
 };
 
+// watchdog: the controlling thread itself calls into the semaphore (final-count probe, clean-up);
+// if the real code blocks it forever, the case is reported and the process ends
+static std::atomic<std::uint64_t> g_beat{0};
+static std::atomic<int> g_case{-1};
+static std::atomic<bool> g_finished{false};
+
 static int abs_site(int site)
 {
     switch (site)
@@ -61,8 +67,27 @@ int main(int argc, char** argv)
     std::uint64_t sx = (seed ^ 0x5DEECE66Dull) * 0xD6E8FEB86659FD93ull;
     sx ^= sx >> 32;
     vctl::Rng rng(sx * 0xD6E8FEB86659FD93ull);
+    std::thread([seed] {
+        std::uint64_t last = ~0ull;
+        auto t0 = std::chrono::steady_clock::now();
+        while (!g_finished.load())
+        {
+            std::uint64_t b = g_beat.load();
+            if (b != last) { last = b; t0 = std::chrono::steady_clock::now(); }
+            if (std::chrono::steady_clock::now() - t0 > std::chrono::seconds(30))
+            {
+                std::printf("HIT lockstep:hang case=%d seed=%" PRIu64 " the controlling thread made no progress for 30 s (blocked inside the semaphore while probing the final state or freeing blocked threads)\n",
+                    g_case.load(), seed);
+                std::fflush(stdout);
+                std::_Exit(0);
+            }
+            std::this_thread::sleep_for(std::chrono::milliseconds(50));
+        }
+    }).detach();
     for (int cs = 0; cs < ncases; ++cs)
     {
+        g_case = cs;
+        g_beat++;
         bool sliding = rng.chance(1, 4);
         int T = 1 + (int) rng.below(5);
         int v0 = (int) rng.below(3), lo0 = (int) rng.below(3), md = (int) rng.below(4);
@@ -168,6 +193,7 @@ int main(int argc, char** argv)
                 if (!sched.empty() && rng.chance(1, 4))
                     for (int x : p)
                         if (x == sched.back()) t = x;
+                g_beat++;
                 sched.push_back(t);
                 sites.push_back(abs_site(ctl.site_of(t)));
                 ctl.release(t);
@@ -191,6 +217,10 @@ int main(int argc, char** argv)
             }
             auto blocked = ctl.blocked();
             std::vector<std::string> snap = got;
+            // the IN line goes out before the controlling thread touches the semaphore itself
+            std::printf("%s\n", in.str().c_str());
+            std::fflush(stdout);
+            g_beat++;
             // final count / lower limit, observed through the public API from the controlling thread
             long fin = 0;
             if (!sliding)
@@ -212,8 +242,9 @@ int main(int argc, char** argv)
             for (size_t i = 0; i < blocked.size(); ++i) out << (i ? "," : "") << blocked[i];
             if (blocked.empty()) out << "-";
             out << " final=" << fin;
-            std::printf("%s\n%s\n", in.str().c_str(), out.str().c_str());
+            std::printf("%s\n", out.str().c_str());
             std::fflush(stdout);
+            g_beat++;
             // clean-up: free the threads that are (legitimately) still blocked
             stop = true;
             pika::verif::hook.store(nullptr, std::memory_order_release);
@@ -243,6 +274,7 @@ int main(int argc, char** argv)
             for (auto& x : th) x.join();
         }
     }
+    g_finished = true;
     std::printf("DONE lockstep cases=%d\n", ncases);
     return 0;
 }
